@@ -4,6 +4,7 @@
   is the executor's sequencing, observed end-to-end; a failing script cancelling everything with
   exit status 105 is C10.script_failure_always_cancels + C01.exit_codes).
 -/
+import NextestModel.Gen.Tables
 import NextestModel.Model.Scripts
 namespace NextestModel.C18
 open NextestModel.Scripts
@@ -150,5 +151,11 @@ theorem scripts_data (env : LoopEnv) (total : Nat) :
 -- non-vacuity: three scripts, the second fails; the dispatcher then refuses the third
 example : runScripts { ack := fun i => decide (i < 2), ok := fun i => i == 0 } 3 =
     ([.started 0, .spawn 0, .finished 0, .started 1, .spawn 1, .finished 1, .started 2], [0]) := by decide
+
+/-- **`run_setup_scripts` is the loop the model runs** (executor.rs and imp.rs, as read on this run): the scripts are taken in the
+    profile's order, each one's future is awaited inside the loop before the next is built, nothing is spawned or joined
+    concurrently, a refused start runs nothing, only a script's own env map is handed on — and the test queue is built only after
+    the scripts' data has been received (scripts first); `scripts_serial_in_order` and `scripts_data` are about exactly this loop -/
+theorem script_loop_is_the_models : ∀ r ∈ Gen.scriptSequencing, r.2 = true := by decide
 
 end NextestModel.C18
